@@ -13,6 +13,7 @@ import (
 //verif:harness VerifC02_AfterFailure poolreuse=lifo quick.maxpaths=20000 thorough.maxpaths=100000 timeout=1800
 //verif:harness VerifC02_Text quick.maxpaths=60000 thorough.maxpaths=300000 timeout=2400
 //verif:harness VerifC02_Interp quick.maxpaths=60000 thorough.maxpaths=300000 timeout=2400
+//verif:harness VerifC02_FrontMatter quick.maxpaths=20000 thorough.maxpaths=100000 timeout=1800 steps=30000000
 
 // directive-free, parser-stable templates over block, inline, void, table and raw-text elements
 var zzC02Templates = []string{
@@ -277,4 +278,62 @@ func VerifC02_AfterFailure() {
 	// and on a fresh engine as well (the pools are process-wide)
 	out2, err3 := zzRender(NewFS(newZZFS(map[string]string{"c.vuego": `<span>{{ p }}</span>`})), good, data)
 	zzAssert(err3 == nil && out2 == out, "C02.afterfailure.fresh-engine-differs")
+}
+
+// front-matter values as written in YAML, and the string each one denotes
+var zzC02FMValues = [][2]string{
+	{`word`, `word`},
+	{`Guide --- Part 1`, `Guide --- Part 1`},
+	{`"a --- b"`, `a --- b`},
+	{`'---'`, `---`},
+	{`x # --- not a delimiter ---`, `x`},
+	{"|\n  first\n  --- second", "first\n--- second\n"},
+	{`a---`, `a---`},
+}
+
+// VerifC02_FrontMatter: a template file below a front-matter block renders
+// its body and nothing else, and the block's values reach the body as YAML
+// reads them — whatever the block's line endings, the blanks after its
+// closing line, and whether a value happens to contain three dashes.
+func VerifC02_FrontMatter() {
+	k := zzChoice("value", len(zzC02FMValues))
+	eol := []string{"\n", "\r\n"}[zzChoice("eol", 2)]
+	closing := []string{"---", "--- ", "---\t"}[zzChoice("closing", 3)]
+	second := zzBool("secondKey")
+	entry := zzChoice("entry", zzBound("fmEntries", 3, 4))
+	body := `<h1 title="t {{ title }}">{{ title }}</h1><p>static &amp; text</p>`
+	var fm strings.Builder
+	fm.WriteString("---" + eol)
+	if second {
+		fm.WriteString("before: b" + eol)
+	}
+	fm.WriteString("title: " + strings.ReplaceAll(zzC02FMValues[k][0], "\n", eol) + eol)
+	if second {
+		fm.WriteString("after: a" + eol)
+	}
+	fm.WriteString(closing + eol)
+	file := fm.String() + body
+	if zzBool("bodyOnNextLineOnly") {
+		file += eol
+	}
+	fsys := newZZFS(map[string]string{"page.vuego": file, "host.vuego": `<template include="page.vuego"></template>`})
+	var sb strings.Builder
+	var err error
+	switch entry {
+	case 0:
+		err = NewFS(fsys).New().RenderFile(contextBackground(), &sb, "page.vuego")
+	case 1:
+		err = NewFS(fsys).Load("page.vuego").Render(contextBackground(), &sb)
+	case 2: // as a component: its front-matter is visible to its own body
+		err = NewFS(fsys).New().RenderFile(contextBackground(), &sb, "host.vuego")
+	case 3:
+		err = NewVue(fsys).RenderFragment(&sb, "page.vuego", map[string]any{})
+	}
+	out := sb.String()
+	zzNote("file", file)
+	zzNote("out", out)
+	zzAssert(err == nil, "C02.frontmatter.render-error")
+	want := zzC02FMValues[k][1]
+	zzAssert(zzTagOpens(out) == 4 && zzTagQuotes(out) == 2, "C02.frontmatter.extra-markup")
+	zzAssert(zzSquash(zzUnescape(out)) == zzSquash(`<h1 title="t `+want+`">`+want+`</h1><p>static & text</p>`), "C02.frontmatter.body-and-values")
 }
